@@ -282,6 +282,14 @@ def run(ctx):
             gram_ids.add("gr%d" % ng)
             # every generated program, and cut after its first third / two thirds (truncated valid programs)
             out.write(json.dumps({"id": "gr%d" % ng, "toks": b["toks"], "class": {"source": "grammar", "fam": b["fam"]}}) + "\n")
+            if b["fam"] in ("stmt", "order") and b["toks"][:3] == ["sub", "vcl_recv", "{"] and b["toks"][-1] == "}" and len(b["toks"]) > 4:
+                # the statements alone (what a snippet holds), and nested in a block (the snippet entry point has its own
+                # dispatch for the first level and reaches ParseStatement only below it)
+                body = b["toks"][3:-1]
+                for tag, toks in (("body", body), ("nested", ["if", "(", "req.http.A", ")", "{"] + body + ["}"])):
+                    n_in += 1
+                    out.write(json.dumps({"id": "gr%d_%s" % (ng, tag), "toks": toks,
+                                          "class": {"source": "grammar-statements", "fam": b["fam"]}}) + "\n")
             for cut in sorted({len(b["toks"]) // 3, 2 * len(b["toks"]) // 3} - {0, len(b["toks"])}):
                 n_in += 1
                 out.write(json.dumps({"id": "gr%d_cut%d" % (ng, cut), "toks": b["toks"][:cut],
